@@ -167,6 +167,9 @@ Fixpoint history (c : chain) (s : state) (runs : list runspec) : list (list resu
 Definition init (c : chain) : state :=
   {| s_store := map (fun _ => None) c; s_copy := map (fun _ => None) c |}.
 
+(* the same run with policy reject *)
+Definition to_reject (r : runspec) : runspec := {| rs_pol := Reject; rs_mode := rs_mode r |}.
+
 (* the same data with the staleness removed *)
 Definition destale_v (v : version) : version :=
   {| v_valid := v_valid v; v_premature := v_premature v; v_stale := false; v_number := v_number v; v_this := v_this v;
